@@ -100,6 +100,118 @@ def module_natives(mod):
     return t, regs
 
 
+EFFECTS = {
+    "fs": re.compile(r"std::fs::|\bfs::[a-z_]+\s*\(|\bFile::|OpenOptions|read_to_string\s*\(|read_dir\s*\(|\.canonicalize\s*\(|\.exists\s*\(\)|\.is_file\s*\(\)|\.is_dir\s*\(\)|\.metadata\s*\(|Resource::File|FileResource"),
+    "net": re.compile(r"TcpStream|TcpListener|UdpSocket|to_socket_addrs|Resource::Tcp|Resource::Udp"),
+    "process": re.compile(r"Command::"),
+    "env": re.compile(r"env::set_var|env::remove_var|set_current_dir"),
+    "exit": re.compile(r"process::exit"),
+}
+PROTECTED = {"fs": "fs", "net": "net", "process": "exec"}
+
+
+def closure_body(text, func, depth=3, seen=None):
+    """body of `func` plus the bodies of the same-file functions it calls (transitively, bounded)"""
+    seen = seen if seen is not None else set()
+    if func in seen or depth < 0:
+        return ""
+    seen.add(func)
+    try:
+        b = fn_body(text, func, "closure")
+    except ExtractError:
+        return ""
+    out = b
+    for callee in set(re.findall(r"\b([a-z_][a-z0-9_]*)\s*\(", b)):
+        if callee != func and re.search(r"\bfn\s+" + callee + r"\s*[(<]", text):
+            out += "\n" + closure_body(text, callee, depth - 1, seen)
+    return out
+
+
+def registration_sites():
+    """every call of a primitive that puts a native into a VM: (file, enclosing fn, primitive)"""
+    import os
+    prims = [("alloc_native", r"\.alloc_native\s*\("), ("alloc_foreign", r"\.alloc_foreign\s*\("),
+             ("module_register", r"\b(?:stdlib::)?[a-z_]+::register\s*\(\s*(?:&mut\s+)?vm\s*\)"),
+             ("register_std_module", r"\bregister_std_module\s*\("), ("register_builtins", r"\bregister_builtins\s*\("),
+             ("native_registry_insert", r"native_registry\s*\.\s*insert\s*\("), ("vm_api_register", r"register_function\s*:\s*Some")]
+    sites = []
+    for top in ("runtime/src", "driver/src", "cli/src", "modules/src"):
+        base = os.path.join(extract.REPO, top)
+        for r, _, fs in os.walk(base):
+            if "/tests" in r:
+                continue
+            for f in sorted(fs):
+                if not f.endswith(".rs") or f == "verif.rs":
+                    continue
+                path = os.path.join(r, f)
+                t = strip_comments(open(path, encoding="utf-8").read())
+                fns = [(m.start(), m.group(1)) for m in re.finditer(r"\bfn\s+([a-z_][a-z0-9_]*)", t)]
+                for prim, rx in prims:
+                    for m in re.finditer(rx, t):
+                        # the definitions themselves are not call sites
+                        line_start = t.rfind("\n", 0, m.start()) + 1
+                        if re.match(r"\s*(pub(\([a-z]+\))?\s+)?fn\s", t[line_start:m.start() + 4]):
+                            continue
+                        fn = "<top>"
+                        for pos, name in fns:
+                            if pos <= m.start():
+                                fn = name
+                            else:
+                                break
+                        sites.append((os.path.relpath(path, extract.REPO), fn, prim))
+    return sorted(sites)
+
+
+def _block_after(txt, pos):
+    """text of the balanced { } block that starts at or after pos"""
+    i = txt.find("{", pos)
+    if i < 0:
+        return ""
+    depth, j = 0, i
+    while j < len(txt):
+        if txt[j] == "{":
+            depth += 1
+        elif txt[j] == "}":
+            depth -= 1
+            if depth == 0:
+                return txt[i + 1:j]
+        j += 1
+    return ""
+
+
+def _refusal_test(txt):
+    """if `txt` starts (after optional `let x = <caps>.allow_B;` / `let caps = vm.capabilities();`) with an `if` on a negated
+    allow_B whose block returns an Err built from CapabilityDenied: B, else None"""
+    m = re.match(r"\s*(?:let\s+([a-z_]+)\s*=\s*[a-z_.()]*?(?:allow_([a-z]+))?\s*(?:\.clone\(\))?\s*;\s*)?if\s*!\s*([a-z_.()]+?)\s*\{", txt)
+    if not m:
+        return None
+    var, bit_in_let, cond = m.group(1), m.group(2), m.group(3)
+    cm = re.search(r"allow_([a-z]+)$", cond)
+    bit = cm.group(1) if cm else (bit_in_let if var and cond == var else None)
+    if not bit:
+        return None
+    blk = _block_after(txt, m.end() - 1)
+    if "CapabilityDenied" in blk and re.search(r"return\s+Err\s*\(", blk):
+        return bit
+    return None
+
+
+def top_guard_bit(text, body):
+    """capability bit tested by the FIRST statement of a native's body: the inline refusal test, or a call
+    `helper(vm, ..)?;` of a same-file helper whose body starts with it; None otherwise"""
+    bit = _refusal_test(body)
+    if bit:
+        return bit
+    m = re.match(r"\s*([a-z_][a-z0-9_]*)\s*\(\s*vm\s*(?:,[^;]*)?\)\s*\?\s*;", body)
+    if m:
+        try:
+            hb = fn_body(text, m.group(1), "guard helper")
+        except ExtractError:
+            return None
+        return _refusal_test(hb)
+    return None
+
+
 def coq_list(xs):
     return "[" + "; ".join(xs) + "]"
 
@@ -121,14 +233,18 @@ def gen_std_modules():
     gated, known = [], []
     for name, body in arms:
         known.append(name)
-        caps = re.findall(r"!\s*vm\s*\.\s*capabilities\(\)\s*\.\s*allow_([a-z]+)", body)
+        caps = re.findall(r"\ballow_([a-z]+)\b", body)
+        regpos = re.search(name + r"::register\s*\(\s*vm\s*\)", body)
+        if not regpos:
+            raise ExtractError(f"register_std_module arm {name}: does not call {name}::register(vm)")
         if caps:
-            # the refusal must come before the registration call
-            if not re.search(r"if\s*!\s*vm\.capabilities\(\)\.allow_" + caps[0] + r"\s*\{\s*return\s+Err\(.*?CapabilityDenied.*?\}\s*" + name + r"::register\(vm\)",
-                             body, flags=re.S):
+            # a refusal (CapabilityDenied returned when the bit is off) must come before the registration call
+            head = body[:regpos.start()]
+            bit = _refusal_test(head)
+            if len(set(caps)) != 1 or bit != caps[0]:
                 raise ExtractError(f"register_std_module arm {name}: capability test of unexpected shape")
             gated.append((name, caps[0]))
-        elif not re.fullmatch(name + r"::register\(vm\)", body.strip()):
+        elif body.strip() != regpos.group(0) and not re.fullmatch(r"\{?\s*" + re.escape(regpos.group(0)) + r"\s*\}?", body.strip()):
             raise ExtractError(f"register_std_module arm {name}: unexpected body {body.strip()[:60]!r}")
     # auto-registered modules (vm/init.rs)
     init = strip_comments(rd("runtime/src/vm/init.rs"))
@@ -153,30 +269,40 @@ def gen_std_modules():
             except ExtractError:
                 b = ""          # generated by a macro (bytes.rs): no body to inspect
             spawns = bool(re.search(r"Command::", b))
-            chk = re.match(r"\s*if\s*!\s*vm\.capabilities\(\)\.allow_exec\s*\{\s*return\s+Err\(\s*vm\.runtime_error\(\s*RuntimeErrorKind::CapabilityDenied", b)
+            chk = top_guard_bit(text, b) == "exec"
             if chk:
                 guarded.append(f"{mod}::{name}")
             if spawns:
                 spawning.append(f"{mod}::{name}")
             if EFFECT.search(b) and not chk and (mod, mod) not in [(g, g) for g, _ in gated]:
                 ungated.append(f"{mod}::{name}")
+    # what every registered native (and builtin) can touch, through its own body and the same-file helpers it calls
+    effects = []
+    for mod in known:
+        text, regs = module_natives(mod)
+        for name, func in regs:
+            cb = closure_body(text, func.split("::")[-1])
+            effs = [e for e, rx in EFFECTS.items() if rx.search(cb)]
+            if effs:
+                effects.append((f"{mod}::{name}", effs))
+    for name in builtins:
+        fm = re.search(r'alloc_native\(\s*"' + re.escape(name) + r'"\s*,\s*\d+\s*,\s*([a-z_]+)', bi)
+        cb = closure_body(bi, fm.group(1)) if fm else ""
+        effs = [e for e, rx in EFFECTS.items() if rx.search(cb)]
+        if effs:
+            effects.append((f"::{name}", effs))
+    reg_sites = registration_sites()
     # natives of gated modules that re-check the capability on every call:
     # body starts with `require_<bit>(vm, "..")?;` and that helper tests allow_<bit>
     percall = []
     for mod, bit in gated:
         text, regs = module_natives(mod)
-        try:
-            hb = fn_body(text, "require_" + bit, mod)
-        except ExtractError:
-            continue
-        if not re.search(r"if\s*!\s*vm\.capabilities\(\)\.allow_" + bit + r"\s*\{\s*return\s+Err\(\s*vm\.runtime_error\(\s*RuntimeErrorKind::CapabilityDenied", hb):
-            continue
         for name, func in regs:
             try:
                 b = fn_body(text, func.split("::")[-1], mod)
             except ExtractError:
                 continue
-            if re.match(r"\s*require_" + bit + r"\(\s*vm\s*,\s*\"[a-z_.0-9]+\"\s*\)\?;", b):
+            if top_guard_bit(text, b) == bit:
                 percall.append(f"{mod}::{name}")
     # capability names -> bits (args/parse.rs)
     parse = strip_comments(rd("runtime/src/vm/args/parse.rs"))
@@ -190,7 +316,7 @@ def gen_std_modules():
         raise ExtractError("args/parse.rs: --ae-* keys not found")
     pv = fn_body(parse, "parse_vm_args", "args/parse.rs")
     prefixes = re.findall(r'strip_prefix\("([^"]+)"\)', pv)
-    if prefixes != ["--allow-caps=", "--deny-caps=", "-ae.", "--ae-"]:
+    if sorted(prefixes) != sorted(["--allow-caps=", "--deny-caps=", "-ae.", "--ae-"]):
         raise ExtractError(f"args/parse.rs: flag prefixes changed: {prefixes}")
     if not re.search(r"if\s+trusted_enabled\s*\{\s*config\.capabilities\.set_all\(true\);\s*config\.allow_all_native_caps\(\);", pv):
         raise ExtractError("args/parse.rs: trusted handling changed")
@@ -204,8 +330,19 @@ def gen_std_modules():
     # order of the checks when a native module is loaded
     def check_order(text, fn, load_call, what):
         b = fn_body(text, fn, what)
-        marks = {"Caps": b.find("check_native_capabilities"), "Checksum": min([x for x in (b.find("compute_file_checksum"), b.find("compute_simple_hash")) if x >= 0] or [-1]),
-                 "Load": b.find(load_call), "Version": b.find("required_version")}
+        helpers = {}
+        for callee in set(re.findall(r"\b([a-z_][a-z0-9_]*)\s*\(", b)):
+            if callee != fn and re.search(r"\bfn\s+" + callee + r"\s*[(<]", text):
+                helpers[callee] = closure_body(text, callee)
+
+        def pos(rx):
+            cands = [m.start() for m in re.finditer(rx, b)]
+            for h, hb in helpers.items():
+                if re.search(rx, hb):
+                    cands += [m.start() for m in re.finditer(r"\b" + h + r"\s*\(", b)]
+            return min(cands) if cands else -1
+        marks = {"Caps": pos(r"check_native_capabilit"), "Checksum": pos(r"compute_file_checksum|compute_simple_hash"),
+                 "Load": pos(load_call), "Version": pos(r"required_version")}
         if -1 in marks.values():
             raise ExtractError(f"{what}::{fn}: a check disappeared: {marks}")
         return [k for k, _ in sorted(marks.items(), key=lambda kv: kv[1])], b
@@ -224,13 +361,13 @@ def gen_std_modules():
     if not m_aasm or not m_avbc:
         raise ExtractError("cli run.rs: load_required_modules call not found in run_aasm_file/run_avbc_file")
     aasm_none = m_aasm.group(1) == "None"
-    aasm_project = (not aasm_none) and m_aasm.group(1).startswith("manifest") and \
-        bool(re.search(r"let\s+manifest\s*=\s*Manifest::for_source_file\(path\)\s*;", aasm))
+    var = m_aasm.group(1).split(".")[0]
+    aasm_project = (not aasm_none) and bool(re.search(r"let\s+" + re.escape(var) + r"\s*=\s*Manifest::for_source_file\(\s*path\s*\)\s*;", aasm))
     if not aasm_none and not aasm_project:
         raise ExtractError("cli run.rs::run_aasm_file: manifest argument of unexpected shape")
-    if not (m_avbc.group(1).startswith("manifest") and "deserialize_with_manifest" in avbc):
+    if "deserialize_with_manifest" not in avbc or m_avbc.group(1) == "None":
         raise ExtractError("cli run.rs::run_avbc_file: manifest argument of unexpected shape")
-    avbc_fallback = bool(re.search(r"None\s*=>\s*Manifest::for_source_file\(path\)", avbc))
+    avbc_fallback = bool(re.search(r"None\s*=>\s*Manifest::for_source_file\(\s*path\s*\)|\.or_else\(\s*\|\|\s*Manifest::for_source_file\(\s*path\s*\)\s*\)", avbc))
     avbc_embedded = not avbc_fallback and "for_source_file" not in avbc
     ini = strip_comments(rd("driver/src/modules/loader/init.rs"))
     source_project = bool(re.search(r"manifest\s*:\s*Manifest::for_source_file\(entry_file\)", fn_body(ini, "new", "loader/init.rs")))
@@ -264,6 +401,12 @@ def gen_std_modules():
     pair = lambda x: "(%s, %s)" % (q(x.split("::")[0]), q(x.split("::")[1]))
     out.append(f"Definition exec_guarded : list (string * string) := {coq_list(pair(x) for x in guarded)}.\n")
     out.append(f"Definition spawning_natives : list (string * string) := {coq_list(pair(x) for x in spawning)}.\n")
+    out.append("(* effects found in the body (and same-file helpers) of every registered native: fs / net / process are the protected ones *)\n")
+    out.append("Definition native_effects : list ((string * string) * list string) :=\n  [" +
+               ";\n   ".join("(%s, %s)" % (pair(n), coq_list(q(e) for e in es)) for n, es in effects) + "].\n")
+    out.append("(* every call of a primitive that registers natives: (file, enclosing fn, primitive) *)\n")
+    out.append("Definition registration_sites : list (string * string * string) :=\n  [" +
+               ";\n   ".join('(%s, %s, %s)' % (q(a), q(b2), q(c)) for a, b2, c in reg_sites) + "].\n")
     out.append("(* natives of gated modules that re-check the capability at the top of every call *)\n")
     out.append(f"Definition percall_guarded : list (string * string) := {coq_list(pair(x) for x in percall)}.\n")
     out.append("(* natives outside the gated modules whose body opens files / sockets / processes without a capability test *)\n")
